@@ -496,6 +496,43 @@ Section Transport.
       apply newman_perm_comms. apply Permutation_map. apply Permutation_sym. apply sort_by_permutation. }
     rewrite E. exact Hsing.
   Qed.
+
+  (* Since the guard of F23 is in the model, [weights_ok] follows from the other two hypotheses:
+     a returned value means the guard was false (no real negative weight), and the edge list
+     having an abstract weighted form means every edge has a weight when weighted. *)
+  Lemma wedges_of_true_real : forall (l : list (edge T A)) es,
+    wedges_of true l = Some es -> forall e, In e l -> exists z, ew e = Some z.
+  Proof.
+    induction l as [|e t IH]; intros es H e0 He0; [destruct He0|]. cbn [wedges_of] in H.
+    unfold wedge_of in H. destruct (ew e) as [z|] eqn:Ez; [|discriminate].
+    destruct (wedges_of true t) as [r|] eqn:Er; [|discriminate].
+    destruct He0 as [<-|He0]; [eauto | exact (IH r eq_refl e0 He0)].
+  Qed.
+
+  Lemma louvain_partitions_ok_guard_false : forall lf sf (g : gstate T A) weighted res thr perms ls,
+    louvain_partitions teqb tltb lf sf g weighted res thr perms = Ok ls ->
+    negative_weight_guard g weighted = false.
+  Proof.
+    intros lf sf g weighted res thr perms ls H. unfold louvain_partitions, louvain_partitions_t in H.
+    destruct (negative_weight_guard g weighted); [discriminate | reflexivity].
+  Qed.
+
+  Theorem louvain_levels_monotone_input_guarded :
+    forall lf sf (g : gstate T A) weighted res thr perms ls esT,
+      WF teqb tltb g -> multi (sp g) = false -> 0 <= res ->
+      wedges_of weighted (get_all_edges g) = Some esT ->
+      louvain_partitions teqb tltb lf sf g weighted res thr perms = Ok ls ->
+      let QT := newman teqb (directed (sp g)) esT res in
+      chain (fun a b => QT a <= QT b) ls /\
+      exists first rest, ls = first :: rest /\
+        QT (map (fun x => [x]) (map nname (nodes_vec g))) <= QT first.
+  Proof.
+    intros lf sf g weighted res thr perms ls esT W Hm Hres HesT H.
+    apply (louvain_levels_monotone_input lf sf g weighted res thr perms ls esT W Hm); try assumption.
+    apply guard_false_weights_ok.
+    - exact (louvain_partitions_ok_guard_false lf sf g weighted res thr perms ls H).
+    - intros Hw. subst weighted. exact (wedges_of_true_real _ _ HesT).
+  Qed.
 End Transport.
 
 (* ---- the hypotheses are jointly satisfiable: an evaluated instance (names 3, 1, 2, 4 become 2, 0, 1, 3;
